@@ -172,6 +172,10 @@ func c19Gen(r *Run, rng *gen.Rng, corpus []string) *c19Inv {
 		}
 		gw.Main, main = nm, nm
 	}
+	if rng.Chance(3) {
+		// a very long line: one string literal of 70 000 characters (an embedded payload)
+		gw.Set(main, append([]byte("var payload string = \""+strings.Repeat("QUJDREVGR0hJSktMTU5PUFFSU1RVVldYWVo", 2000)+"\"\n"), gw.Get(main)...))
+	}
 	if rng.Chance(8) {
 		// an accepted program with unusual bytes where the lexer does not care: a comment in
 		// Latin-1 or with a NUL byte, or a multi-byte character that straddles a power-of-two
@@ -258,6 +262,11 @@ func c19Gen(r *Run, rng *gen.Rng, corpus []string) *c19Inv {
 			inv.Sibling = true
 		}
 	}
+	// interpreters the search path may lead to (the PATH of the simulated environment differs from
+	// epoch to epoch): /usr/bin/bash is /bin/bash, the others are other files
+	files = append(files, simrt.FileSpec{Path: "/bin/bash", Data: []byte("ELF bash 5.2")}, simrt.FileSpec{Path: "/usr/bin/bash", HardLink: "/bin/bash"},
+		simrt.FileSpec{Path: "/opt/homebrew/bin/bash", Data: []byte("ELF bash 5.3 (homebrew)")}, simrt.FileSpec{Path: "/home/u/.nix-profile/bin/bash", Data: []byte("ELF bash (nix)")},
+		simrt.FileSpec{Path: "/bin/sh", Data: []byte("ELF dash")}, simrt.FileSpec{Path: "/usr/bin/env", Data: []byte("ELF env")})
 	files = append(files, simrt.FileSpec{Path: "/tmp", Dir: true})
 	cwd := rng.Pick([]string{mount, "/sim", "/", path.Dir(path.Join(mount, main)), outAbs, path.Dir(outAbs)})
 	rel := func(abs string) string {
